@@ -235,33 +235,7 @@ def check_autocorr(ctx):
     ok = any(norm_text(n.func).endswith('fft_autocorrelation') and n.args and norm_text(n.args[0]) == 'self.vectors' for n in calls)
     ctx.ob('R4', fa, 'fft_autocorrelation(self.vectors)', True if ok else None, 'autocorrelation of the orientation vectors' if ok else 'call not recognised')
     ff = ctx.fn('gemdat.utils.fft_autocorrelation')
-    # forward and inverse real transforms must use the same length: irfft defaults to 2 * (m - 1), which differs from an odd n
-    from .C08 import linear
-    rf = [n for n in ast.walk(ff.node) if isinstance(n, ast.Call) and norm_text(n.func).endswith('.rfft')]
-    irf = [n for n in ast.walk(ff.node) if isinstance(n, ast.Call) and norm_text(n.func).endswith('.irfft')]
-    for r_ in rf:
-        n_fwd = next((k.value for k in r_.keywords if k.arg == 'n'), r_.args[1] if len(r_.args) > 1 else None)
-        for i_ in irf:
-            n_inv = next((k.value for k in i_.keywords if k.arg == 'n'), i_.args[1] if len(i_.args) > 1 else None)
-            if n_fwd is None:
-                ctx.ob('R4', ff, i_, None, 'forward transform without explicit length')
-                continue
-            lin = linear(n_fwd)
-            odd = None
-            if lin is not None and all(v.denominator == 1 for v in list(lin[0].values()) + [lin[1]]):
-                if all(int(v) % 2 == 0 for v in lin[0].values()):
-                    odd = int(lin[1]) % 2 == 1
-            if n_inv is not None:
-                same = norm_text(n_inv).replace(' ', '') == norm_text(n_fwd).replace(' ', '')
-                ctx.ob('R4', ff, i_, True if same else None, 'inverse transform of the same length as the forward transform' if same else 'lengths not comparable')
-            elif odd is True:
-                ctx.ob('R4', ff, i_, False,
-                       f'the forward transform has the odd length n = {norm_text(n_fwd)} but np.fft.irfft without n returns 2 * (m - 1) = n - 1 samples: '
-                       f'the inverse is taken on a different grid, so the autocorrelation is not the time-origin-averaged dot product')
-            elif odd is False:
-                ctx.ob('R4', ff, i_, True, 'even length: the default inverse length equals n')
-            else:
-                ctx.ob('R4', ff, i_, None, 'parity of the transform length unknown and irfft has no explicit length')
+    check_real_fft_lengths(ctx, 'R4', ff)
     divs = [n for n in ast.walk(ff.node) if isinstance(n, ast.BinOp) and isinstance(n.op, ast.Div) and isinstance(n.right, ast.Subscript)
             and norm_text(n.left) == norm_text(n.right.value)]
     found = False
@@ -274,3 +248,47 @@ def check_autocorr(ctx):
             ctx.ob('R4', ff, n, ok, 'normalised by its own lag-0 value' if ok else 'normalised by a lag other than zero')
     if not found:
         ctx.ob('R4', ff, 'lag-0 normalisation', None, 'normalisation by the lag-0 column not recognised')
+
+
+def check_real_fft_lengths(ctx, rule, ff, what='autocorrelation'):
+    """Forward and inverse real transforms must use the same length: irfft defaults to 2 * (m - 1), which differs from an odd n."""
+    from .common import linear_atoms, parse_sx
+    it = ctx.entry(ff.qualname)
+    rf = [n for n in ast.walk(ff.node) if isinstance(n, ast.Call) and norm_text(n.func).endswith('.rfft')]
+    irf = [n for n in ast.walk(ff.node) if isinstance(n, ast.Call) and norm_text(n.func).endswith('.irfft')]
+    for r_ in rf:
+        n_fwd = next((k.value for k in r_.keywords if k.arg == 'n'), r_.args[1] if len(r_.args) > 1 else None)
+        for i_ in irf:
+            n_inv = next((k.value for k in i_.keywords if k.arg == 'n'), i_.args[1] if len(i_.args) > 1 else None)
+            if n_fwd is None:
+                ctx.ob(rule, ff, i_, None, 'forward transform without explicit length')
+                continue
+            t = parse_sx(it.sx(n_fwd), full=True)
+            atoms, c = linear_atoms(t) if t is not None else ({}, 0.0)
+            odd = None
+            arbitrary = False
+            if t is not None and all(float(v).is_integer() for v in list(atoms.values()) + [c]):
+                if all(int(v) % 2 == 0 for v in atoms.values()):
+                    odd = int(c) % 2 == 1
+                else:
+                    # an odd multiple of something that is not itself known to be even
+                    for a, v in atoms.items():
+                        if int(v) % 2 != 0:
+                            at = parse_sx(a)
+                            if isinstance(at, ast.Call) and not norm_text(at.func).startswith(('len', 'int')):
+                                arbitrary = True
+            if n_inv is not None:
+                same = it.sx(n_inv).replace(' ', '') == it.sx(n_fwd).replace(' ', '')
+                ctx.ob(rule, ff, i_, True if same else None, 'inverse transform of the same length as the forward transform' if same else 'lengths not comparable')
+            elif odd is True:
+                ctx.ob(rule, ff, i_, False,
+                       f'the forward transform has the odd length n = {norm_text(n_fwd)} but np.fft.irfft without n returns 2 * (m - 1) = n - 1 samples: '
+                       f'the inverse is taken on a different grid, so the {what} is not the time-origin average')
+            elif odd is False:
+                ctx.ob(rule, ff, i_, True, 'even length: the default inverse length equals n')
+            elif arbitrary:
+                ctx.ob(rule, ff, i_, False,
+                       f'the forward length n = {norm_text(t)} can be odd, but np.fft.irfft without n assumes an even length (returns 2 * (m - 1) samples): '
+                       f'for odd n the inverse is taken on a different grid and the {what} is wrong at every lag')
+            else:
+                ctx.ob(rule, ff, i_, None, 'parity of the transform length unknown and irfft has no explicit length')
